@@ -8,6 +8,9 @@
 (*    Z  every boolean-sorted tree with <= GenChainOps binary operators (the flat operator *)
 (*       chains of up to GenChainOps+1 operands and all their parenthesisations) over      *)
 (*       GenChainCfg, for every field sort and value;                                       *)
+(*    F  in(..) whose arguments are operator chains with 1..2 binary operators (first, second, third argument, *)
+(*       negated, inside &&) - the engine re-associates function arguments separately;                          *)
+(*    L  len($) as an operand inside arithmetic chains under a comparison (str and slice fields);               *)
 (*    D  (x arith y) cmp z for every arithmetic operator and numeric leaf incl. 0, 0.5, -1, $; *)
 (*    K  the minimal cases of the known findings.                                        *)
 (*    Each tree is printed twice: minimal parentheses and a redundant style; the spacing *)
@@ -20,7 +23,7 @@
 (*  and haz are informative copies - the trace specification recomputes them.             *)
 EXTENDS TagExpr, Json, IOUtils, SequencesExt
 
-CONSTANTS GenMode, GenCfgName, GenDepth, GenChainCfgName, GenChainOps, GenPtr, SimMinDepth, SimMaxDepth
+CONSTANTS GenMode, GenCfgName, GenDepth, GenChainCfgName, GenChainOps, GenFuncCfgName, GenLenOps, GenPtr, SimMinDepth, SimMaxDepth
 
 \* operator / leaf alphabets of the exhaustive sets (TagExpr!SmallCfg and FullCfg are the walker's)
 C1Cfg == [num |-> {2 * Scale}, str |-> {"a"}, bool |-> {TRUE}, arith |-> {"*", "+", "-"}, rel |-> {"<"},
@@ -51,6 +54,10 @@ TVals(k) == IF GenPtr THEN ValsOfSort(k) ELSE {v \in ValsOfSort(k) : v.kind # "p
 TPairs == UNION {Pairs(BT(k, GenDepth, GenCfg), TVals(k)) : k \in Sorts}
 \* Z: every boolean-sorted tree with 1..GenChainOps binary operators (flat chains under minimal printing)
 ZPairs == UNION {Pairs(UNION {BZ(k, m, GenChainCfg) : m \in 1 .. GenChainOps}, TVals(k)) : k \in Sorts}
+\* F: in() with operator chains (1..2 binary operators) as arguments;  L: len($) inside arithmetic chains
+GenFuncCfg == CfgOf(GenFuncCfgName)
+FPairs == UNION {Pairs(FTrees(k, 2, GenFuncCfg), TVals(k)) : k \in Sorts}
+LPairs == UNION {Pairs(LTrees(GenLenOps, GenFuncCfg), TVals(k)) : k \in {"str", "slice"}}
 \* D: every arithmetic operator applied to every pair of numeric leaves (0, fractions, negatives, $), compared with
 \*    a third leaf: division / remainder by zero, NaN in comparisons, remainder of negatives and fractions
 DLeaves == {Num(0), Num(Scale), Num(2 * Scale), Num(32), Num(0 - Scale), Fld}
@@ -61,7 +68,7 @@ KPairs == {<<Bin("==", Bin("%", Fld, Num(32)), Num(0)), FV("int", Scale, "", FAL
            <<Bin("==", Fld, Fld), FV("slice", 0, "", FALSE)>>,
            <<In(<<Fld, Fld>>), FV("slice", 0, "", FALSE)>>}
 
-AllPairs == SetToSeq(UPairs \cup TPairs \cup ZPairs \cup DPairs \cup KPairs)
+AllPairs == SetToSeq(UPairs \cup TPairs \cup ZPairs \cup FPairs \cup LPairs \cup DPairs \cup KPairs)
 
 \* (LET-bound so that TLC evaluates the pair sequence once)
 Cases == LET S == AllPairs
@@ -107,6 +114,8 @@ GrowN == /\ cur.s = "N"
          /\ \/ \E op \in MulOps \cup AddOps, left \in BOOLEAN : cur' = Node(Either(op, cur.t, RandomElement(PN[sfk]), left), "N")
             \/ \E op \in RelOps \cup EqOps, left \in BOOLEAN : cur' = Node(Either(op, cur.t, RandomElement(PN[sfk]), left), "B")
             \/ Tag(cur.t) # "num" /\ cur' = Node(Neg(cur.t), "N")
+            \/ \E first \in BOOLEAN : LET x == RandomElement(PN[sfk]) IN
+                   cur' = Node(In(IF first THEN <<cur.t, x>> ELSE <<x, RandomElement(PN[sfk]), cur.t>>), "B")
 GrowS == /\ cur.s = "S"
          /\ \/ \E left \in BOOLEAN : cur' = Node(Either("+", cur.t, RandomElement(PS[sfk]), left), "S")
             \/ \E op \in RelOps \cup EqOps, left \in BOOLEAN : cur' = Node(Either(op, cur.t, RandomElement(PS[sfk]), left), "B")
@@ -115,6 +124,8 @@ GrowS == /\ cur.s = "S"
 GrowB == /\ cur.s = "B"
          /\ \/ \E op \in {"&&", "||"} \cup EqOps, left \in BOOLEAN : cur' = Node(Either(op, cur.t, RandomElement(PB[sfk]), left), "B")
             \/ cur' = Node(Not(cur.t), "B")
+            \/ \E first \in BOOLEAN : LET x == RandomElement(PB[sfk]) IN
+                   cur' = Node(In(IF first THEN <<cur.t, x>> ELSE <<x, cur.t>>), "B")
 GrowU == /\ cur.s = "U"
          /\ \/ \E op \in AllOps, left \in BOOLEAN : cur' = Node(Either(op, cur.t, RandomElement(PU), left), "U")
             \/ cur' = Node(Not(cur.t), "U") \/ cur' = Node(Neg(cur.t), "U") \/ cur' = Node(LenF(cur.t), "U")
